@@ -69,6 +69,7 @@ class VerusResult:
         self.raw = ""
         self.gen_path = None
         self.tags_present = []
+        self.lost_hints = {}
 
 
 def run_verus_unit(unit, keep_dir=None, extra_args=None, rlimit=None, mutate=None):
@@ -219,6 +220,14 @@ def run_verus_unit(unit, keep_dir=None, extra_args=None, rlimit=None, mutate=Non
             res2 = run_verus_unit(unit, keep_dir=keep_dir, extra_args=extra_args, rlimit=80, mutate=mutate)
             res2.reason = (res2.reason + " (after retry with --rlimit 80)").strip() if res2.status == "undecided" else res2.reason
             return res2
+        lost = {it["name"]: it.get("lost_hints") for it in res.items if it.get("lost_hints")}
+        res.lost_hints = lost
+        if lost and any(f["function"] in lost for f in res.failures):
+            # a proof hint lost its anchor and the function no longer verifies: undecided, never an alarm
+            hard.append("proof hint anchor lost in %s and the proof fails without it: %s" % (
+                sorted(set(f["function"] for f in res.failures if f["function"] in lost)), lost))
+            res.failures = [f for f in res.failures if f["function"] not in lost]
+            only_rlimit = False
         if hard and not (only_rlimit and res.failures):
             res.status = "undecided"
             res.reason = "verifier could not decide: " + " | ".join(hard)[:2000]
